@@ -12,6 +12,8 @@ import Mathlib.Tactic.FieldSimp
 import Mathlib.Tactic.Linarith
 import Mathlib.Tactic.Abel
 import Mathlib.Algebra.Order.BigOperators.Group.Finset
+import Mathlib.Data.Nat.Lattice
+import Mathlib.Order.Interval.Finset.Nat
 
 set_option linter.unusedSectionVars false
 
@@ -871,6 +873,205 @@ theorem udiv_nonneg (a b : ℝ) (ha : 0 ≤ a) (hb : 0 < b) : 0 ≤ a / b := div
 /-- SMT axiom `umul(ra, rb) == umul(rb, ra)` -/
 theorem umul_comm (a b : ℝ) : a * b = b * a := mul_comm a b
 end arith
+
+/-! ## Second batch: singletons, explicit-divisor gain (`Qrawg`, `QrawB`), `umul` linearity, walks / shortest-walk length,
+support of a product of non-negative matrices -/
+section modules2
+open BigOperators Finset
+variable {ι : Type} [Fintype ι] [DecidableEq ι] {μ : Type} [DecidableEq μ]
+
+/-! ### 6e. singleton modules (`lemma_modularity`, "singletons": `ci[y] == y + 1`, module index `m` ↔ label `m + 1`) -/
+
+/-- `single → modsum(W, ci, x, m, n) == W[x][m]` -/
+theorem modsum_single (W : ι → ι → ℝ) (c : ι → ι) (hc : ∀ y, c y = y) (x m : ι) : modsum W c x m = W x m := by
+  unfold modsum; simp [hc]
+/-- `single → modsumT(W, ci, x, m, n) == W[m][x]` -/
+theorem modsumT_single (W : ι → ι → ℝ) (c : ι → ι) (hc : ∀ y, c y = y) (x m : ι) : modsumT W c x m = W m x := by
+  unfold modsumT; simp [hc]
+/-- `single → degsum(W, ci, m, n) == sum1(W[m], n)` -/
+theorem degsum_single (W : ι → ι → ℝ) (c : ι → ι) (hc : ∀ y, c y = y) (m : ι) : degsum W c m = sum1 (W m) := by
+  unfold degsum sum1; simp [hc]
+/-- `single → degsumT(W, ci, m, n) == csum(W, m, n)` -/
+theorem degsumT_single (W : ι → ι → ℝ) (c : ι → ι) (hc : ∀ y, c y = y) (m : ι) : degsumT W c m = csum W m := by
+  unfold degsumT csum; simp [hc]
+
+/-! ### 8b. gain with an explicit divisor, and for an arbitrary kernel -/
+
+/-- `Qrawg(M, c, gamma, sd, n)` = Σ_{x,y same module} (M x y − γ·kout x·kin y / sd), `sd` an arbitrary divisor -/
+noncomputable def Qrawg (W : ι → ι → ℝ) (c : ι → μ) (γ sd : ℝ) : ℝ :=
+  Qraw (fun x y => W x y - γ * sum1 (W x) * csum W y / sd) c
+
+/-- SMT axiom `0≤u<n ∧ l != c[u] → Qrawg(M, Store(c,u,l), g, sd, n) - Qrawg(M, c, g, sd, n) == out_g + in_g` -/
+theorem Qrawg_gain (W : ι → ι → ℝ) (γ sd : ℝ) (c : ι → μ) (u : ι) (l : μ) (hl : l ≠ c u) :
+    Qrawg W (Function.update c u l) γ sd - Qrawg W c γ sd
+    = ((modsum W c u l - modsum W c u (c u) + W u u)
+          - γ * sum1 (W u) * (degsumT W c l - degsumT W c (c u) + csum W u) / sd)
+      + ((modsumT W c u l - modsumT W c u (c u) + W u u)
+          - γ * csum W u * (degsum W c l - degsum W c (c u) + sum1 (W u)) / sd) :=
+  Qraw_gain W γ sd c u l hl
+
+/-- SMT axiom `0≤u<n ∧ l != c[u] → QrawB(B, Store(c,u,l), n) - QrawB(B, c, n)
+  == (modsum(B,c,u,l-1,n) - modsum(B,c,u,c[u]-1,n) + B[u][u]) + (modsumT(B,c,u,l-1,n) - modsumT(B,c,u,c[u]-1,n) + B[u][u])`
+(`QrawB(B, c, n)` is `Qraw B c`; this is `Qraw_move` restated with `modsum`/`modsumT`) -/
+theorem QrawB_move (B : ι → ι → ℝ) (c : ι → μ) (u : ι) (l : μ) (hl : l ≠ c u) :
+    Qraw B (Function.update c u l) - Qraw B c
+      = (modsum B c u l - modsum B c u (c u) + B u u) + (modsumT B c u l - modsumT B c u (c u) + B u u) :=
+  Qraw_move B c u l hl
+
+/-- `lemma_relabel_g(M, c1, c2, gamma, sd, n)`: `(∀ y z, c1[y]==c1[z] ↔ c2[y]==c2[z]) → Qrawg(M,c1,g,sd,n) == Qrawg(M,c2,g,sd,n)` -/
+theorem Qrawg_relabel {μ₁ μ₂ : Type} [DecidableEq μ₁] [DecidableEq μ₂] (W : ι → ι → ℝ) (c₁ : ι → μ₁) (c₂ : ι → μ₂)
+    (γ sd : ℝ) (h : ∀ y z, c₁ y = c₁ z ↔ c₂ y = c₂ z) : Qrawg W c₁ γ sd = Qrawg W c₂ γ sd :=
+  Qraw_relabel _ c₁ c₂ h
+
+/-- `Qmod` is `Qrawg` with the total weight as divisor, normalised -/
+theorem Q_eq_Qrawg (W : ι → ι → ℝ) (c : ι → μ) (γ : ℝ) : Q W c γ = (1 / tot W) * Qrawg W c γ (tot W) := rfl
+
+end modules2
+
+section arith2
+/-- `lemma_umul_linear(d, a, b)`: `umul(d, a) - umul(d, b) == umul(d, a - b)` -/
+theorem umul_sub (d a b : ℝ) : d * a - d * b = d * (a - b) := by ring
+/-- `lemma_umul_linear(d, a, b)`: `umul(d, 2 * a) == 2 * umul(d, a)` (used for `a`, `b`, `a - b`) -/
+theorem umul_two (d a : ℝ) : d * (2 * a) = 2 * (d * a) := by ring
+end arith2
+
+/-! ### Walks in the digraph of non-zero entries and the shortest-walk length (`walk`, `sdist`, `lemma_walks`).
+The SMT function `walk(G, x, y, m)` is only constrained for `m ≥ 1`; here `walk G x y 0` is the empty walk (`x = y`), which
+makes concatenation uniform.  `sdist` is the least `m ≥ 1` with a walk of `m` edges, `0` if there is none. -/
+section walks
+open Finset
+variable {ι : Type} [Fintype ι] [DecidableEq ι]
+
+/-- `walk G x y m`: there is a walk of exactly `m` edges (non-zero entries of `G`) from `x` to `y` -/
+def walk (G : ι → ι → ℝ) (x : ι) : ι → ℕ → Prop
+  | y, 0 => x = y
+  | y, m + 1 => ∃ z, walk G x z m ∧ G z y ≠ 0
+
+/-- `sdist G x y`: least `m ≥ 1` with `walk G x y m`; `0` if no such walk -/
+noncomputable def sdist (G : ι → ι → ℝ) (x y : ι) : ℕ := sInf {m | 1 ≤ m ∧ walk G x y m}
+
+theorem walk_zero (G : ι → ι → ℝ) (x y : ι) : walk G x y 0 ↔ x = y := Iff.rfl
+
+/-- `lemma_walks` step (suffix form, both directions; the SMT side Skolemises `→` by `walkmid`):
+`walk(G,x,y,m+1) ↔ ∃ z, walk(G,x,z,m) ∧ G[z][y] != 0` -/
+theorem walk_succ (G : ι → ι → ℝ) (x y : ι) (m : ℕ) :
+    walk G x y (m + 1) ↔ ∃ z, walk G x z m ∧ G z y ≠ 0 := Iff.rfl
+
+/-- `lemma_walks` base: `walk(G,x,y,1) == (G[x][y] != 0)` -/
+theorem walk_one (G : ι → ι → ℝ) (x y : ι) : walk G x y 1 ↔ G x y ≠ 0 := by
+  rw [walk_succ]
+  constructor
+  · rintro ⟨z, hz, hG⟩
+    rw [walk_zero] at hz; rw [hz]; exact hG
+  · intro h; exact ⟨x, (walk_zero G x x).mpr rfl, h⟩
+
+/-- concatenation and splitting of walks -/
+theorem walk_add (G : ι → ι → ℝ) (x y : ι) (a b : ℕ) :
+    walk G x y (a + b) ↔ ∃ z, walk G x z a ∧ walk G z y b := by
+  induction b generalizing y with
+  | zero =>
+    constructor
+    · intro h; exact ⟨y, h, (walk_zero G y y).mpr rfl⟩
+    · rintro ⟨z, h1, h2⟩
+      rw [walk_zero] at h2; rw [← h2]; exact h1
+  | succ b ih =>
+    rw [← Nat.add_assoc, walk_succ]
+    constructor
+    · rintro ⟨w, hw, hG⟩
+      obtain ⟨z, h1, h2⟩ := (ih w).mp hw
+      exact ⟨z, h1, (walk_succ G z y b).mpr ⟨w, h2, hG⟩⟩
+    · rintro ⟨z, h1, h2⟩
+      obtain ⟨w, hw, hG⟩ := (walk_succ G z y b).mp h2
+      exact ⟨w, (ih w).mpr ⟨z, h1, hw⟩, hG⟩
+
+theorem walk_concat (G : ι → ι → ℝ) (x z y : ι) (a b : ℕ) (h1 : walk G x z a) (h2 : walk G z y b) :
+    walk G x y (a + b) := (walk_add G x y a b).mpr ⟨z, h1, h2⟩
+
+/-- `lemma_walks` step, PREFIX form (SMT Skolem function `walkfirst`):
+`walk(G,x,y,m+1) ↔ ∃ z, G[x][z] != 0 ∧ walk(G,z,y,m)` -/
+theorem walk_succ_prefix (G : ι → ι → ℝ) (x y : ι) (m : ℕ) :
+    walk G x y (m + 1) ↔ ∃ z, G x z ≠ 0 ∧ walk G z y m := by
+  rw [Nat.add_comm, walk_add]
+  constructor
+  · rintro ⟨z, h1, h2⟩; exact ⟨z, (walk_one G x z).mp h1, h2⟩
+  · rintro ⟨z, h1, h2⟩; exact ⟨z, (walk_one G x z).mpr h1, h2⟩
+
+/-- `lemma_walks` sdist: `m >= 1 ∧ walk(G,x,y,m) → sdist(G,x,y) >= 1 ∧ sdist(G,x,y) <= m`
+(`sdist(G,x,y) >= 0` holds by typing, `sdist : ℕ`) -/
+theorem sdist_le (G : ι → ι → ℝ) (x y : ι) (m : ℕ) (h : walk G x y m) (hm : 1 ≤ m) :
+    1 ≤ sdist G x y ∧ sdist G x y ≤ m := by
+  have hmem : m ∈ {m | 1 ≤ m ∧ walk G x y m} := ⟨hm, h⟩
+  have hne : ({m | 1 ≤ m ∧ walk G x y m} : Set ℕ).Nonempty := ⟨m, hmem⟩
+  exact ⟨(Nat.sInf_mem hne).1, Nat.sInf_le hmem⟩
+
+/-- `lemma_walks` sdist: `sdist(G,x,y) >= 1 → walk(G,x,y,sdist(G,x,y))` -/
+theorem walk_sdist (G : ι → ι → ℝ) (x y : ι) (h : 1 ≤ sdist G x y) : walk G x y (sdist G x y) := by
+  have hne : ({m | 1 ≤ m ∧ walk G x y m} : Set ℕ).Nonempty := by
+    by_contra hne
+    rw [Set.not_nonempty_iff_eq_empty] at hne
+    unfold sdist at h
+    rw [hne, Nat.sInf_empty] at h
+    omega
+  exact (Nat.sInf_mem hne).2
+
+/-- `lemma_walks` split (SMT Skolem function `splitz`): `k >= 1 ∧ sdist(G,x,y) > k →
+  z != x ∧ walk(G,x,z,k) ∧ sdist(G,x,z) == k` for some node `z` (the k-th node of a shortest walk) -/
+theorem sdist_split (G : ι → ι → ℝ) (x y : ι) (k : ℕ) (hk : 1 ≤ k) (h : k < sdist G x y) :
+    ∃ z, z ≠ x ∧ walk G x z k ∧ sdist G x z = k := by
+  have hd : 1 ≤ sdist G x y := by omega
+  have hw := walk_sdist G x y hd
+  obtain ⟨b, hb⟩ : ∃ b, sdist G x y = k + b := ⟨sdist G x y - k, by omega⟩
+  have hb1 : 1 ≤ b := by omega
+  rw [hb, walk_add] at hw
+  obtain ⟨z, hz1, hz2⟩ := hw
+  refine ⟨z, ?_, hz1, ?_⟩
+  · intro hzx
+    rw [hzx] at hz2
+    have := (sdist_le G x y b hz2 hb1).2
+    omega
+  · obtain ⟨h1, h2⟩ := sdist_le G x z k hz1 hk
+    by_contra hne
+    have hw' := walk_sdist G x z h1
+    have hcat := walk_concat G x z y _ _ hw' hz2
+    have := (sdist_le G x y _ hcat (by omega)).2
+    omega
+
+/-- `lemma_walks` pigeonhole: `x != y → sdist(G,x,y) <= n - 1`: the nodes at distances `1, …, sdist x y` from `x` are
+pairwise distinct and different from `x` -/
+theorem sdist_lt_card (G : ι → ι → ℝ) (x y : ι) (hxy : x ≠ y) : sdist G x y ≤ Fintype.card ι - 1 := by
+  have hsub : Finset.Icc 1 (sdist G x y) ⊆ (Finset.univ.erase x).image (sdist G x) := by
+    intro k hk
+    rw [Finset.mem_Icc] at hk
+    rw [Finset.mem_image]
+    by_cases hkd : k = sdist G x y
+    · exact ⟨y, Finset.mem_erase.mpr ⟨hxy.symm, Finset.mem_univ _⟩, hkd.symm⟩
+    · obtain ⟨z, hz, _, hzk⟩ := sdist_split G x y k hk.1 (by omega)
+      exact ⟨z, Finset.mem_erase.mpr ⟨hz, Finset.mem_univ _⟩, hzk⟩
+  have h1 := Finset.card_le_card hsub
+  have h2 := Finset.card_image_le (s := Finset.univ.erase x) (f := sdist G x)
+  rw [Nat.card_Icc] at h1
+  rw [Finset.card_erase_of_mem (Finset.mem_univ x), Finset.card_univ] at h2
+  omega
+
+end walks
+
+/-! ### Support of a product of entrywise non-negative matrices (`np.dot` contract `dot_support` in engine/pyvc/npspec.py) -/
+section dotsupport
+open BigOperators Finset
+variable {ι κ₁ κ₂ : Type} [Fintype κ₁]
+
+/-- `np.dot` support contract, `P[x][y] >= 0` -/
+theorem dot_nonneg (A : ι → κ₁ → ℝ) (B : κ₁ → κ₂ → ℝ) (hA : ∀ x z, 0 ≤ A x z) (hB : ∀ z y, 0 ≤ B z y) (x : ι) (y : κ₂) :
+    0 ≤ ∑ z, A x z * B z y :=
+  Finset.sum_nonneg (fun z _ => mul_nonneg (hA x z) (hB z y))
+
+/-- `np.dot` support contract, `P[x][y] != 0 ↔ ∃ z, A[x][z] != 0 ∧ B[z][y] != 0` (the SMT side Skolemises `→` by `dotwit`) -/
+theorem dot_support (A : ι → κ₁ → ℝ) (B : κ₁ → κ₂ → ℝ) (hA : ∀ x z, 0 ≤ A x z) (hB : ∀ z y, 0 ≤ B z y) (x : ι) (y : κ₂) :
+    (∑ z, A x z * B z y) ≠ 0 ↔ ∃ z, A x z ≠ 0 ∧ B z y ≠ 0 := by
+  rw [Ne, Finset.sum_eq_zero_iff_of_nonneg (fun z _ => mul_nonneg (hA x z) (hB z y))]
+  simp [mul_eq_zero, not_or]
+
+end dotsupport
 
 -- NOT PROVED HERE: nothing was left out; every quantified fact of `spec_axioms()` and every `lemma_*` instance of
 -- engine/pyvc/core.py has a theorem above (see README.md for the table).  Three SMT axioms are not theorems but
